@@ -27,6 +27,8 @@ package idl
 //@ ghost gMOut ref
 //@ ghost gIfaceName string
 //@ ghost gIdlDoc string
+//@ ghost gLC string
+//@ ghost gLCkw string
 //@ ghost gone int
 //@ ghost gtwo int
 //@ ghost cstart [int]int
@@ -47,12 +49,21 @@ package idl
 
 //@ func (*parser).advance {C05 C06 | safety: C09}
 //@   requires [pos] wf1(p)
-//@   modifies p.position, p.lineStart, p.lastComment, gpos, cstart
+//@   modifies p.position, p.lineStart, p.lastComment, gLC, gpos, cstart
 //@   ensures [wf1 C05 C06 C09] wf1(p) && p.position >= old(p.position)
 //@   ensures [wf C05 C06 C09] old(p.position) <= len(p.input) ==> p.position <= len(p.input)
 //@   ensures [maximal C05] old(p.position) <= len(p.input) ==> tokenStart(p)
 //@   ensures [ret C05 C06 C09] result == (p.position < len(p.input))
 //@   ensures [layout C05 C06] forall i int :: old(p.position) <= i && i < p.position && i < len(p.input) ==> ws(p.input[i]) || incomment(p, old(p.position), i)
+//@   ghostset at call(Reset)#1 : gLC = ""
+//@   ghostset at call(WriteByte)#1 : gLC = gLC + "\n"
+//@   ghostset at call(WriteString)#1 : gLC = gLC + p.input[start:p.position]
+//@   hypothesis [model-buffer-len] at call(Len)#1 : res0 == len(gLC)
+//@   assert [doc-reset C05] at call(Reset)#1 : p.position >= 1 && p.input[p.position - 1] == 10
+//@   assert [doc-sep C05] at call(WriteByte)#1 : arg1 == 10 && len(gLC) > 0
+//@   assert [doc-text C05] at call(WriteString)#1 : arg1 == p.input[start:p.position] && gpos < start && start <= gpos + 2 && p.input[gpos] == 35 && (p.position >= len(p.input) || p.input[p.position] == 10) && (start == gpos + 2 || start >= len(p.input) || p.input[start] == 10)
+//@   ensures [doc-keep C05] (forall i int :: old(p.position) <= i && i < p.position && i < len(p.input) ==> p.input[i] != 35 && p.input[i] != 10) ==> gLC == old(gLC)
+//@   loop 1 invariant [doc-keep C05] (forall i int :: old(p.position) <= i && i < p.position && i < len(p.input) ==> p.input[i] != 35 && p.input[i] != 10) ==> gLC == old(gLC)
 //@   ghostset at call(next)#1 : gpos = p.position - 1
 //@   ghostset at call(Len)#1 : cstart = fill(cstart, gpos, p.position, gpos)
 //@   loop 1 invariant [wf] wf1(p) && p.position >= old(p.position) && (old(p.position) <= len(p.input) ==> p.position <= len(p.input))
@@ -120,7 +131,7 @@ package idl
 //@ func (*parser).readStructType {C05 C06 | safety: C09}
 //@   requires [wf] wf(p)
 //@   decreases 2 * (len(p.input) - p.position)
-//@   modifies p.position, p.lineStart, p.lastComment, gpos, cstart, gElem
+//@   modifies p.position, p.lineStart, p.lastComment, gLC, gpos, cstart, gElem
 //@   ensures [wf C05 C06 C09] result != nil ==> wf(p)
 //@   ensures [wf1 C05 C06 C09] wf1(p) && p.position >= old(p.position)
 //@   ensures [fresh C05 C06 C09] result != nil ==> fresh(result)
@@ -150,7 +161,7 @@ package idl
 //@ func (*parser).readType {C05 C06 | safety: C09}
 //@   requires [wf] wf(p)
 //@   decreases 2 * (len(p.input) - p.position) + 1
-//@   modifies p.position, p.lineStart, p.lastComment, gpos, cstart, gElem
+//@   modifies p.position, p.lineStart, p.lastComment, gLC, gpos, cstart, gElem
 //@   ghostset at call(readType)#1 : gElem = res0
 //@   ghostset at call(readType)#2 : gElem = res0
 //@   ghostset at call(readStructType)#1 : gElem = res0
@@ -184,7 +195,9 @@ package idl
 
 //@ func (*parser).readAlias {C05 C06 | safety: C09}
 //@   requires [wf] wf(p)
-//@   modifies p.position, p.lineStart, p.lastComment, gpos, cstart, gElem, gDoc, gName, gType
+//@   modifies p.position, p.lineStart, p.lastComment, gLC, gpos, cstart, gElem, gDoc, gName, gType
+//@   hypothesis [model-buffer-string] at call(String)#1 : res0 == gLC
+//@   ensures [doc C05] result1 == nil ==> result0.Doc == old(gLC)
 //@   ghostset at call(String)#1 : gDoc = res0
 //@   ghostset at call(readTypeName)#1 : gName = res0
 //@   ghostset at call(readType)#1 : gType = res0
@@ -197,7 +210,9 @@ package idl
 
 //@ func (*parser).readMethod {C05 C06 | safety: C09}
 //@   requires [wf] wf(p)
-//@   modifies p.position, p.lineStart, p.lastComment, gpos, cstart, gone, gtwo, gElem, gDoc, gName, gMIn, gMOut
+//@   modifies p.position, p.lineStart, p.lastComment, gLC, gpos, cstart, gone, gtwo, gElem, gDoc, gName, gMIn, gMOut
+//@   hypothesis [model-buffer-string] at call(String)#1 : res0 == gLC
+//@   ensures [doc C05] result1 == nil ==> result0.Doc == old(gLC)
 //@   ghostset at call(String)#1 : gDoc = res0
 //@   ghostset at call(readTypeName)#1 : gName = res0
 //@   ghostset at call(readType)#1 : gMIn = res0
@@ -216,7 +231,9 @@ package idl
 
 //@ func (*parser).readError {C05 C06 | safety: C09}
 //@   requires [wf] wf(p)
-//@   modifies p.position, p.lineStart, p.lastComment, gpos, cstart, gname, gElem, gDoc, gName, gType
+//@   modifies p.position, p.lineStart, p.lastComment, gLC, gpos, cstart, gname, gElem, gDoc, gName, gType
+//@   hypothesis [model-buffer-string] at call(String)#1 : res0 == gLC
+//@   ensures [doc C05] result1 == nil ==> result0.Doc == old(gLC)
 //@   ghostset at call(String)#1 : gDoc = res0
 //@   ghostset at call(readTypeName)#1 : gName = res0
 //@   ghostset at call(readType)#1 : gType = res0
@@ -236,7 +253,10 @@ package idl
 
 //@ func (*parser).readIDL {C05 C06 | safety: C09}
 //@   requires [wf] wf(p)
-//@   modifies p.position, p.lineStart, p.lastComment, gpos, cstart, gone, gtwo, gname, gkw, gElem, gDoc, gName, gType, gMIn, gMOut, gIdlDoc, gIfaceName
+//@   modifies p.position, p.lineStart, p.lastComment, gLC, gpos, cstart, gone, gtwo, gname, gkw, gElem, gDoc, gName, gType, gMIn, gMOut, gIdlDoc, gIfaceName, gLCkw
+//@   hypothesis [model-buffer-string] at call(String)#1 : res0 == gLC
+//@   ghostset at call(readKeyword)#1 : gLCkw = gLC
+//@   assert [idl-doc C05] at call(advance)#2 : idl.Doc == gLCkw
 //@   ghostset at call(String)#1 : gIdlDoc = res0
 //@   ghostset at call(readInterfaceName)#1 : gIfaceName = res0
 //@   assert [idl-head C05] at call(advance)#2 : idl.Doc == gIdlDoc && idl.Name == gIfaceName
@@ -267,7 +287,7 @@ package idl
 //@   loop 1 decreases len(p.input) - p.position
 
 //@ func New {C05 C06 | safety: C09}
-//@   modifies gpos, cstart, gone, gtwo, gname, gkw, gElem, gDoc, gName, gType, gMIn, gMOut, gIdlDoc, gIfaceName
+//@   modifies gpos, cstart, gone, gtwo, gname, gkw, gElem, gDoc, gName, gType, gMIn, gMOut, gIdlDoc, gIfaceName, gLC, gLCkw
 //@   ensures [notree C06] result1 != nil ==> result0 == nil
 //@   ensures [desc C05] result1 == nil ==> result0 != nil && result0.Description == description
 //@   ensures [methods C06] result1 == nil ==> len(result0.Methods) >= 1
